@@ -1329,6 +1329,21 @@ def _copy_env(env: Dict[str, object]) -> Dict[str, object]:
     return {key: (list(value) if isinstance(value, list) else value) for key, value in env.items()}
 
 
+def _is_open_parameter(
+    ctx: Dict[str, object], name: str, existing_type: Optional[str], new_type: str
+) -> bool:
+    """A helper parameter's C++ type is chosen after its body has been analysed.
+
+    Re-binding the parameter inside the body (``level = level / full``) may
+    therefore still change its type - except from float back to a narrower
+    numeric type, which a float parameter can hold anyway.
+    """
+
+    if name not in ctx.get("_param_names", ()):
+        return False
+    return not (existing_type == "float" and new_type in {"int", "bool"})
+
+
 def _forget_constants(ctx: Dict[str, object], names: Set[str]) -> None:
     """Stop treating ``names`` as transpile-time constants in ``ctx``.
 
@@ -1798,6 +1813,7 @@ def _parse_function(
     if forced_signature is not None and len(forced_signature) != len(all_args):
         raise ValueError("call signature arity does not match function definition")
 
+    child_ctx["_param_names"] = {arg.arg for arg in all_args}
     for idx, arg in enumerate(all_args):
         if forced_signature is not None:
             param_type_label = forced_signature[idx]
@@ -2032,7 +2048,12 @@ def _handle_assignment_ast(
             function_param_orders,
             ctx,
         )
-        var_types[target.id] = inferred_type
+        if (
+            target.id not in declared
+            or var_types.get(target.id) is None
+            or _is_open_parameter(ctx, target.id, var_types.get(target.id), inferred_type)
+        ):
+            var_types[target.id] = inferred_type
         vars_env[target.id] = _ExprStr(target.id)
         if isinstance(stmt.op, ast.Div):
             nodes.append(
@@ -2072,7 +2093,16 @@ def _handle_assignment_ast(
                 raise ValueError("conflicting list element types")
         if _is_list_type(inferred_type):
             helpers.add("list")
-        var_types[target.id] = inferred_type
+        if (
+            not is_declared
+            or existing_type is None
+            or _is_list_type(inferred_type)
+            or _is_open_parameter(ctx, target.id, existing_type, inferred_type)
+        ):
+            var_types[target.id] = inferred_type
+        # else: the C++ type was fixed by the first assignment; keep describing the
+        # variable by its declared type so that values derived from it later are
+        # not typed after whatever expression was assigned last.
         vars_env[target.id] = value_obj
         if target.id in ctx.get("_volatile_names", ()) and not isinstance(value_obj, _ExprStr):
             vars_env[target.id] = _ExprStr(target.id)
